@@ -651,7 +651,7 @@ func child(mode string, in json.RawMessage) any {
 
 	var streams [2][]ev
 	var unclosedAll [2]bool
-	var soverflow, streamOverflow bool
+	var soverflow, streamOverflow, capHit bool
 	for e := 0; e < 2; e++ {
 		compiler := e == 1
 		eng := map[bool]string{false: "interp", true: "compiler"}[compiler]
@@ -677,6 +677,9 @@ func child(mode string, in json.RawMessage) any {
 				// desynchronise the stream invisibly: attribute by program then
 				if v.tc || (lmode == 2 && usesTC) {
 					pre = "tailcall-function-involved:"
+				}
+				if strings.HasPrefix(v.rule, "before-never-closed:unwinding-stopped-after-30-frames") {
+					capHit = true
 				}
 				if strings.HasPrefix(v.rule, "before-never-closed") {
 					if o.t.StackOverflow {
@@ -723,26 +726,56 @@ func child(mode string, in json.RawMessage) any {
 	if !usesTC && !soverflow && !streamOverflow {
 		lr.EngCmp++
 		a, b := streams[0], streams[1]
-		n := min(len(a), len(b))
 		diff := -1
-		for i := 0; i < n; i++ {
-			if a[i].K != b[i].K || a[i].Key != b[i].Key || hexs(a[i].Vals) != hexs(b[i].Vals) {
-				diff = i
-				break
+		capDiffs := 0
+		i, j := 0, 0
+		for i < len(a) && j < len(b) {
+			if a[i].K == b[j].K && a[i].Key == b[j].Key && hexs(a[i].Vals) == hexs(b[j].Vals) {
+				i++
+				j++
+				continue
 			}
+			// A trap more than 30 frames deep (recorded finding: Abort is delivered for the innermost
+			// wasmdebug.MaxFrames frames only): which and how many of the frames get their Abort differs by engine
+			// (29 or 30 on the compiler). Inside such an unwinding the runs of Abort events are not comparable;
+			// everything around them still is.
+			if capHit && (a[i].K == 'X' || b[j].K == 'X') {
+				for i < len(a) && a[i].K == 'X' {
+					i++
+				}
+				for j < len(b) && b[j].K == 'X' {
+					j++
+				}
+				capDiffs++
+				continue
+			}
+			diff = i
+			break
 		}
-		if diff < 0 && len(a) != len(b) {
-			diff = n
+		if diff < 0 && (len(a)-i) != (len(b)-j) {
+			diff = i
+		}
+		if capDiffs > 0 && diff < 0 {
+			add("before-never-closed:unwinding-stopped-after-30-frames:abort-runs-differ-between-engines", fmt.Sprintf("%d unwindings of traps deeper than 30 frames delivered different Abort runs on the two engines; the streams agree otherwise", capDiffs))
 		}
 		if diff >= 0 {
 			ga, gb := "<end>", "<end>"
-			if diff < len(a) {
-				ga = a[diff].String()
+			ka, kb := "end", "end"
+			if i < len(a) {
+				ga, ka = a[i].String(), string(a[i].K)
 			}
-			if diff < len(b) {
-				gb = b[diff].String()
+			if j < len(b) {
+				gb, kb = b[j].String(), string(b[j].K)
 			}
-			add("event-streams-differ-between-engines:"+streamDiffKind(a, b, diff), fmt.Sprintf("event %d:\n interp:   %s\n compiler: %s\ninterp stream before it:\n%s", diff, ga, gb, tail(a[:min(diff, len(a))], 8)))
+			kind := "interp=" + ka + ",compiler=" + kb
+			if ka == kb && i < len(a) && j < len(b) {
+				if a[i].Key != b[j].Key {
+					kind = ka + ":different-function"
+				} else {
+					kind = ka + ":different-values"
+				}
+			}
+			add("event-streams-differ-between-engines:"+kind, fmt.Sprintf("event %d (interp) / %d (compiler):\n interp:   %s\n compiler: %s\ninterp stream before it:\n%s", i, j, ga, gb, tail(a[:min(i, len(a))], 8)))
 		}
 	} else if soverflow {
 		lr.Inconcl = "stack-exhaustion(engine comparison skipped)"
